@@ -32,7 +32,11 @@ def run(tier, seed):
              'subscripts rely on: energies.size() = nsamples, e1_cprobs.size() = nsamples, nsamples rows in e2_cprobs, row k of size '
              'nsamples - k (a truncated or over-long dataset must raise at load time, not index out of bounds at sampling time)')
     rep.rule('NOEXIT', 'no exit/abort/terminate call in the library or the programs: exceptions are the only error channel')
+    rep.rule('REGEX.input', 'no text that comes from an input file is matched by a std::regex with an unbounded quantifier: the '
+             'library\'s matcher is a recursive backtracking one (one stack frame per repetition, exponential retries on nested '
+             'quantifiers), so a long or adversarial token exhausts the stack or never returns')
     fns = loader_functions(prog)
+    _regex(rep, prog, fns)
     rep.analysed['functions with stream extraction'] = [f['qn'] for f in fns]
     n = 0
     for fn in fns:
@@ -295,3 +299,55 @@ def _bounds_pdf(rep, prog):
     ok = bool(g3) and all(any(F.dominates(b, r) for b in g3) for r in rets)
     rep.add('BOUNDS', 'pdf.rows.count', where(fn, rets[0].line), 'before returning, the number of decoded p.d.f. rows / values is compared with the '
             'declared sample count and a shortfall raises (gsl_interp2d_init and the rejection sampler read n1 x n2 values and both energy grids)', ok)
+
+
+# ---------------------------------------------------------------- REGEX.input
+_REGEX_CALLS = ('std::regex_match', 'std::regex_search', 'std::regex_replace')
+_UNBOUNDED = re.compile(r'(?<!\\)[*+]|\{\d*,\}')
+
+
+def _regex(rep, prog, fns):
+    from .. import callgraph
+    cg = callgraph.CallGraph(prog)
+    keys = [k for k, f in prog.functions.items() if any(f is g for g in fns)]
+    scope = set(cg.reachable(keys)) | set(keys)
+    nfun = nuse = 0
+    for k in sorted(scope):
+        f = prog.functions.get(k)
+        if f is None or not f.get('body'):
+            continue
+        nfun += 1
+        decls = {}
+        for d in astu.walk(f['body']):
+            if d['k'] == 'Decl':
+                for v in d.get('vars', []):
+                    decls[v.get('id')] = v
+        for c in astu.walk(f['body']):
+            is_call = c['k'] in astu.CALLS and c.get('callee', {}).get('qn') in _REGEX_CALLS
+            is_iter = c['k'] == 'Ctor' and ('regex_iterator' in c.get('callee', {}).get('qn', '') or
+                                            'regex_token_iterator' in c.get('callee', {}).get('qn', ''))
+            if not (is_call or is_iter):
+                continue
+            nuse += 1
+            pats = []
+            for a in c.get('args', []):
+                a = astu.strip_casts(a)
+                if a['k'] == 'Ref' and 'regex' in a.get('ty', '') and a.get('id') in decls and 'init' in decls[a['id']]:
+                    a = astu.strip_casts(decls[a['id']]['init'])
+                if a['k'] == 'Ctor' and 'basic_regex' in a.get('callee', {}).get('qn', ''):
+                    pats += [x['v'] for x in astu.walk(a) if x['k'] == 'Str']
+            subj = astu.strip_casts(c['args'][0]) if c.get('args') else None
+            literal_subject = subj is not None and subj['k'] == 'Str'
+            bounded = bool(pats) and not any(_UNBOUNDED.search(p) for p in pats)
+            ok = bounded or literal_subject
+            rep.add('REGEX.input', '%s:%d' % (f['name'], nuse), where(f, c.get('l')),
+                    '%s: %s on `%s` with pattern %s has bounded work' % (f['name'], c['callee']['qn'].split('::')[-1],
+                                                                       astu.src(subj)[:40] if subj else '?', pats or '(not a literal)'),
+                    ok, None if ok else ['the function is reached from the loader(s) %s with text read from the file; the pattern has '
+                                         'an unbounded quantifier, so the recursion depth (and with nested quantifiers the number of '
+                                         'retries) grows with the token' % ', '.join(sorted({g['name'] for g in fns
+                                                                                           if k in cg.reachable([kk for kk, ff in prog.functions.items() if ff is g]) or f is g}))[:200]])
+    rep.add('REGEX.input', 'all', 'bxdecay0/', '%d functions reachable from the %d loaders scanned: %d regular-expression use(s)'
+            % (nfun, len(fns), nuse), True, nontrivial=False)
+    rep.analysed['functions reachable from loaders (regex scan)'] = nfun
+    rep.floor('REGEX.input', nfun, 15)
